@@ -69,4 +69,20 @@ theorem crossErr_cases (x o : NaiveDT) (hx : TValid x.time) (ho : TValid o.time)
   generalize dayNumOf o.date = d0
   (repeat' split) <;> omega
 
+/-- the derived order of date-times is the order on the extended line of date-times, leap-second
+operands included -/
+theorem dt_cmp_line (a b : NaiveDT) (ha : NDTInv a) (hb : NDTInv b) :
+    NaiveDT.cmp a b = sgn (dtDiffLine a b) := by
+  have ta := ha.2
+  have tb := hb.2
+  unfold TValid at ta tb
+  unfold NaiveDT.cmp
+  dsimp only
+  rw [date_cmp_spec a.date b.date ha.1 hb.1]
+  unfold sgn Time.cmp dtDiffLine dtLinePos instNs instSecs
+  generalize dayNumOf a.date = da
+  generalize dayNumOf b.date = db
+  repeat' split
+  all_goals omega
+
 end Chrono.Proofs.TimeGaps
